@@ -162,6 +162,38 @@ fn c06_no_plausible_mapping_within_guard_distance_gives_an_empty_stack() {
     unsafe { libc::munmap(region, len); }
 }
 
+/// C06 (last clause) / obligation verus:stack::get_stack_info [C06 plausible], second twin: an inaccessible (---p)
+/// reservation DIRECTLY FOLLOWED by a readable mapping. A stack pointer in the reservation finds that mapping only
+/// when it lies within the guard distance (1 MiB); from further below the answer is "no stack", however the search
+/// walks the reservation. Synthetic mapping lists, every combination of 6 distances x 4 in-page offsets x 3
+/// reservation sizes; distances next to the 1 MiB boundary itself are left out (the property does not fix them).
+#[test]
+fn c06_readable_mapping_beyond_the_guard_distance_is_not_the_stack() {
+    let rw = MMPermissions::READ | MMPermissions::WRITE | MMPermissions::PRIVATE;
+    let mut n = 0;
+    for res_size in [5usize << 20, 8 << 20, 64 << 20] {
+        let res_start = 0x7000_0000_0000usize;
+        let rw_start = res_start + res_size;
+        let rw_size = 64 * 4096;
+        let dumper = dumper_for(vec![mapping(res_start, res_size, MMPermissions::PRIVATE), mapping(rw_start, rw_size, rw)]);
+        for below in [4096usize, 256 << 10, 1020 << 10, 1032 << 10, 2 << 20, 4 << 20] {
+            for off in [0usize, 8, 2048, 4088] {
+                let sp = rw_start - below + off;
+                let r = dumper.get_stack_info(sp);
+                n += 1;
+                if below <= 1020 << 10 {
+                    assert_eq!(r.as_ref().ok(), Some(&(rw_start, rw_size)),
+                        "sp {sp:#x} is {below:#x} bytes below the first plausible mapping {rw_start:#x}: the region begins there");
+                } else {
+                    assert!(r.is_err(), "sp {sp:#x} is {below:#x} bytes (more than the guard distance) below {rw_start:#x}: no stack, got {r:?}");
+                }
+            }
+        }
+        std::mem::forget(dumper);
+    }
+    println!("BPRIME evaluations={n}");
+}
+
 fn crash_context_with(rip: usize, rsp: usize, tid: i32) -> crate::crash_context::CrashContext {
     // SAFETY: crash_context::CrashContext is plain old data (libc ucontext_t, fpstate, signalfd_siginfo, two pids)
     let mut cc: crash_context::CrashContext = unsafe { std::mem::zeroed() };
